@@ -160,6 +160,11 @@ pub fn build_tree(work: &str, seed: u64, variant: u64) -> Tree {
     write_file(&base.join("secret/canary.txt"), format!("{}-2", CANARY).as_bytes());
     write_file(&base.join("root-evil/canary.txt"), format!("{}-3", CANARY).as_bytes());
     write_file(&base.join("rootcanary.txt"), format!("{}-4", CANARY).as_bytes());
+    // a second virtual host's directory with the SAME relative paths but foreign (canary-tagged) contents: whatever a
+    // `directory` route of this root answers, it must never be one of these (cache keyed by path alone, host mix-up)
+    for (rel, _) in &files {
+        write_file(&base.join("otherhost").join(rel), format!("{}-5 other host's {}", CANARY, rel).as_bytes());
+    }
     let by_content = files.iter().map(|(p, c)| (c.clone(), p.clone())).collect();
     Tree { base, root, files, dirs: dnames, by_content }
 }
@@ -421,7 +426,11 @@ pub fn run(args: &Args, handlers: &'static [Handler], bind: fn(&'static str) -> 
                     if h == Handler::ServeAsFilePath && route != "/*" {
                         continue;
                     }
-                    let spellings: Vec<String> = if h == Handler::ServeAsFilePath { vec![rel.clone()] } else { vec![pct_encode_path(&rel, false), pct_encode_path(&rel, true)] };
+                    let mut spellings: Vec<String> = if h == Handler::ServeAsFilePath { vec![rel.clone()] } else { vec![pct_encode_path(&rel, false), pct_encode_path(&rel, true)] };
+                    // raw spelling (non-ASCII octets sent as they are) where decoding cannot change the meaning
+                    if h != Handler::ServeAsFilePath && !rel.is_ascii() && !rel.contains(['%', '?', '#', '+']) {
+                        spellings.push(rel.clone());
+                    }
                     for s in spellings {
                         let lead = if route_prefix(route).ends_with('/') { "" } else { "/" };
                         for cache in [false, true] {
